@@ -109,3 +109,27 @@ package generator
 // the qualifier is a function of the package
 //@ func NameRelativeTo
 //@   pure
+
+// ---------------------------------------------------------------- C16 (kernel)
+
+// a word is replaced exactly when it is the Go name of a table struct of the file, by the SQL name of that
+// table; every other word is returned unchanged (the splitting into words is regexp `[\w]+`, not modelled)
+//@ func TableNameReplacer.Replace$lit1
+//@   props C16
+//@   ensures result == ite(has(rp, word), rp[word], word)
+
+// the SQL literal of a constant: numbers as written, strings single-quoted
+//@ pred sqlLiteral(c *types.Const) string = strings.ReplaceAll(c.Val().ExactString(), "\"", "'")
+
+// #[Type.Const] is replaced by the SQL literal of the constant Const of the enum Type (followed by a comment naming it)
+//@ func ReplaceEnums$lit1
+//@   props C16
+//@   nosafety
+//@   requires ana != nil && ana.Pkg != nil && ana.Pkg.Types != nil && len(s) >= 3
+//@   modifies *
+//@   callarg fmt.Sprintf@2 1 sqlLiteral(enumValue.Const)
+//@   callarg fmt.Sprintf@2 2 typeName
+//@   callarg fmt.Sprintf@2 3 varName
+
+//@ func SQLTableName
+//@   pure
